@@ -214,6 +214,8 @@ def main():
         kf = match_known(findings, r, ob)
         if kf is not None:
             lines.append(f"KNOWN-FINDING: property={prop} {kf['id']}: {kf['what']}")
+            if r is not None:
+                n_obl -= 1   # reported as a finding, counted neither as an obligation nor as discharged
             continue
         path = os.path.join(REPLAY_DIR, safe_name(ob["full"]) + ".json")
         rep = {"property": prop, "obligation": ob["full"], "status": ob["status"], "backend": ob["backend"],
@@ -317,7 +319,8 @@ def main():
 def _kind_class(kind):
     """stable class of an obligation kind: clause numbers (post.3, inv-preserved.2:L1) are dropped"""
     head, _, rest = kind.partition(":")
-    head = head.split(".")[0]
+    if "[" not in head:
+        head = head.split(".")[0]
     return head + (":" + rest if rest else "")
 
 
@@ -337,7 +340,8 @@ def load_known(prop):
 def match_known(findings, r, ob):
     for k in findings:
         if r is not None and k.get("function") == r["unit"] and k.get("self_cls") == r["self_cls"] \
-                and k.get("kind") == ob["kind"] and (not k.get("line_text") or line_text(r, ob) == k["line_text"]):
+                and k.get("kind") == ob["kind"] and (not k.get("unit") or k["unit"] == r.get("name")) \
+                and (not k.get("line_text") or line_text(r, ob) == k["line_text"]):
             return k
         if r is None and k.get("bounded") == ob["name"] and k.get("case") == (ob.get("witness") or {}).get("case"):
             return k
